@@ -14,6 +14,7 @@ A *case* is a JSON-serialisable dict (this is also what the Go harness reads):
     rev {back, ahead, m}
     spos {fmt, m:[[g, vr]]}   vr = {dx, dy, da} or None
     pair {fmt 1|2, first:[g...], adj:[[[g1,g2], {first: vr, second: vr}]], class1/class2/matrix for fmt 2}
+    curs {recs:[[g, {entry: anchor|None, exit: anchor|None}]]}      (GPOS 3; C07 only, not modelled in Shaper.tla)
     mbase / mmark {marks:[[g, {cls, x, y}]], bases:[[g, [anchor|None ...]]]}   anchor = {x, y}
 """
 import itertools
@@ -465,6 +466,30 @@ def family_gpos(cat):
                            lookup([pair1({(1, 2): (vr(0, 0, -50), vr(1, 0, 0))})], gpos=True)])
 
 
+def curs(recs):
+    an = lambda a: None if a is None else {"x": a[0], "y": a[1]}
+    return {"k": "curs", "recs": sorted([[g, {"entry": an(e), "exit": an(x)}] for g, (e, x) in recs.items()])}
+
+
+def family_curs(cat):
+    """C07 only: cursive attachment (GPOS 3) is inside C07's quantifier (safety, conservation, history
+    independence) but outside C06's (no reference semantics: the code documents it as incomplete)"""
+    full = {1: ((0, 0), (50, 10)), 2: ((5, -3), (60, 0)), 4: (None, (7, 7)), 5: ((1, 1), None), 6: (None, None)}
+    for fl in FLAGSETS[:6]:
+        cat.add("curs", [lookup([curs(full)], gpos=True, **fl)])
+    cat.add("curs", [lookup([curs({1: ((0, 0), (50, 10))})], gpos=True)])
+    cat.add("curs", [lookup([curs({2: ((0, 0), (9, 9))}), curs(full)], gpos=True)])
+    # as a nested action at the first, last and an out-of-range position of a match that reaches the end
+    for fmt in (1, 2, 3):
+        for acts in ([(0, 2)], [(1, 2)], [(1, 2), (0, 2)], [(2, 2), (1, 2)]):
+            cat.add("curs", [lookup([ctx([rule([{1}, {2}], acts)], fmt=fmt)], gpos=True),
+                             lookup([curs(full)], gpos=True)])
+    cat.add("curs", [lookup([ctx([rule([{1}, {2}], [(1, 2)], back=[{2}], ahead=[{1}])], chain=True)], gpos=True,
+                            flags=["mark"]), lookup([curs(full)], gpos=True, flags=["mark"])])
+    cat.add("curs", [lookup([spos({1: vr(3, 4, 5), 2: vr(-1, 0, 2)})], gpos=True), lookup([curs(full)], gpos=True)],
+            order=(1, 2, 1, 2))
+
+
 def family_malformed(cat):
     """C07: shapes the reader can deliver but that are not well formed (outputs are not compared)"""
     cat.add("mal-seqidx", [lookup([ctx([rule([{1}, {2}], [(2, 2), (0, 2)])])]), CHILDREN["single"]()])
@@ -507,6 +532,7 @@ def family_malformed(cat):
 FAMILIES = {
     "simple": family_simple, "lig": family_lig, "order": family_order, "ctx": family_ctx,
     "chain": family_chain, "gpos": family_gpos, "malformed": family_malformed, "ctxnest": family_ctxnest, "ctxskip": family_ctxskip,
+    "curs": family_curs,
 }
 
 
